@@ -208,6 +208,21 @@ def replay_discipline(ctx, only_terminate=False):
             ctx.viol('%s|first-message|right' % sel.path, t['at'], 'the first message of a round is asked from the right side although the left side is not the cached one', None)
         if side == 'self.left' and not every(dnf, lambda c: has(c, 'bool', 'self.left.cached', False)):
             ctx.viol('%s|first-message|left' % sel.path, t['at'], 'the first message of a round is asked from the left side although it is the cached one: the replay would start before knowing whether a new round exists', None)
+    # ---- both sides are watched together only while neither has ended its iteration: a side that already delivered all
+    #      its FlushAndRestart must not be read again before the round is over (its next batch belongs to the next round)
+    both = [(bi, t) for bi, t in sel.calls() if (t['callee'].get('path') or '').endswith('::select') or (t['callee'].get('path') or '').endswith('::select_timeout')]
+    if not both:
+        raise AnchorMissing('BinaryStartReceiver::select never selects over both inputs')
+    for bi, t in both:
+        dnf = q.prune_contradictions(sel, q.cond_of_block(facts, sel, bi))
+        okl = every(dnf, lambda c: has(c, 'bool', 'is_ended(&self.left)', False))
+        okr = every(dnf, lambda c: has(c, 'bool', 'is_ended(&self.right)', False))
+        ctx.inst('select|two-sided receive|%s' % t['at'], {'guarded by !left.is_ended()': okl, 'guarded by !right.is_ended()': okr})
+        if not okl or not okr:
+            ctx.viol('%s|reads-ended-side' % sel.path, t['at'],
+                     'both inputs are read together on a path where one of them is not known to be still inside its iteration '
+                     '(!is_ended()): a batch of the next round can be consumed while the previous round is not over (the side input\'s '
+                     'Terminate is still missing), so the round counters underflow and the cache is never replayed', None)
     # ---- reset: only the cached side rewinds
     rs = facts.method(SIDE, 'reset')
     rsym = q.sym(facts, rs)
